@@ -103,6 +103,57 @@ pub fn stake_history(out: &mut crate::Out, tag: &str, seed: u64, net: NetID, sta
             d.seal_next(None);
         }
     }
+    // several stake transactions in one batch, consistent and inconsistent ones mixed, in every order
+    {
+        let cur_epoch = d.view().height.epoch();
+        let locked: Vec<TxHash> = d.view().stakes.iter().map(|(k, _)| *k).collect();
+        let sp: Vec<_> = d.spendable().into_iter().filter(|(c, _)| !locked.contains(&c.txhash)).collect();
+        let syms: Vec<_> = sp.iter().filter(|(_, x)| x.coin_data.denom == Denom::Sym && x.coin_data.value.0 > 1000).take(3).cloned().collect();
+        let fees: Vec<_> = sp.iter().filter(|(_, x)| x.coin_data.denom == Denom::Mel && x.coin_data.value.0 > 1_000_000).take(3).cloned().collect();
+        if syms.len() == 3 && fees.len() == 3 {
+            let specs: [(u64, u64, u128); 3] = [(cur_epoch + 1, cur_epoch + 3, 0), (cur_epoch + 1, cur_epoch + 2, 7), (cur_epoch, cur_epoch + 2, 0)]; // good, wrong amount, starts now
+            let mut txs = vec![];
+            for (i, (st, en, diff)) in specs.iter().enumerate() {
+                let amount = syms[i].1.coin_data.value.0 / 2;
+                if let Some(t) = stake_tx(&mut d, &syms[i], &fees[i], amount, amount + diff, *st, *en, i % 4, 0) {
+                    txs.push(t);
+                }
+            }
+            if txs.len() == 3 {
+                let mut ids: Vec<String> = txs.iter().map(|t| crate::lj::hx(&t.hash_nosigs().0)).collect();
+                ids.sort();
+                let key = format!("C03|{}|stakes|{}", d.cur, ids.join(","));
+                let pre = d.cur;
+                let mut last = None;
+                for (pi, p) in crate::drive::permutations(3, 6, &mut d.r).iter().enumerate() {
+                    let batch: Vec<Transaction> = p.iter().map(|i| txs[*i].clone()).collect();
+                    let (nid, ok) = d.w.batch(pre, &batch, [0usize, 2][pi % 2], json!({"why": "three stake transactions (consistent, wrong amount, starting now) in one batch", "agreeKey": key, "perm": p}));
+                    if ok {
+                        last = Some(nid);
+                    }
+                }
+                let mut s1 = pre;
+                let mut all = true;
+                for t in txs.iter() {
+                    let (nid, ok) = d.w.batch(s1, std::slice::from_ref(t), 0, json!({"why": "stake transactions one at a time"}));
+                    if ok {
+                        s1 = nid;
+                    } else {
+                        all = false;
+                    }
+                }
+                if all {
+                    // only a fold in which every member was accepted has to equal the batch
+                    d.w.batch(s1, &[], 0, json!({"why": "stake fold end", "agreeKey": key, "fold": true}));
+                }
+                if let Some(nid) = last {
+                    d.cur = nid;
+                    d.block_batches.push(txs.clone());
+                    staked.push((txs[0].clone(), cur_epoch + 1, cur_epoch + 3));
+                }
+            }
+        }
+    }
     // a stake and a spend of its output in one batch
     {
         let sp = d.spendable();
@@ -110,7 +161,8 @@ pub fn stake_history(out: &mut crate::Out, tag: &str, seed: u64, net: NetID, sta
         let fee = sp.iter().find(|(_, x)| x.coin_data.denom == Denom::Mel && x.coin_data.value.0 > 1_000_000).cloned();
         if let (Some(sym), Some(fee)) = (sym, fee) {
             let amount = sym.1.coin_data.value.0 / 2;
-            if let Some(t) = stake_tx(&mut d, &sym, &fee, amount, amount, epoch0 + 1, epoch0 + 2, 1, 0) {
+            let ce = d.view().height.epoch();
+            if let Some(t) = stake_tx(&mut d, &sym, &fee, amount, amount, ce + 1, ce + 2, 1, 0) {
                 let h = d.view().height;
                 let c0 = (CoinID::new(t.hash_nosigs(), 0), CoinDataHeight { coin_data: t.outputs[0].clone(), height: h });
                 let fee2 = d.spendable().into_iter().find(|(c, x)| x.coin_data.denom == Denom::Mel && x.coin_data.value.0 > 1_000_000 && !t.inputs.contains(c));
@@ -121,7 +173,7 @@ pub fn stake_history(out: &mut crate::Out, tag: &str, seed: u64, net: NetID, sta
                     }
                 }
                 if d.apply(&[t.clone()], 0, json!({"why": "stake alone"})) {
-                    staked.push((t, epoch0 + 1, epoch0 + 2));
+                    staked.push((t, ce + 1, ce + 2));
                 }
             }
         }
